@@ -1,17 +1,236 @@
 import Mathlib.Algebra.Module.BigOperators
 import Mathlib.Algebra.BigOperators.Group.Finset.Basic
 import Mathlib.Algebra.Field.Defs
+import Mathlib.Data.ZMod.Basic
+import Mathlib.LinearAlgebra.Matrix.Notation
 import BronVerif.Model.LinAlg
+import BronVerif.Lemmas.GaussJordanSolve
+import BronVerif.Lemmas.GaussJordanDet
+import BronVerif.Lemmas.GaussJordanMatrix
+import BronVerif.Lemmas.GaussJordanInverse
+import BronVerif.Lemmas.FpField
+import Mathlib.Tactic.NormNum.Prime
 /-!
 # C20 — interpolation and linear algebra over the scalar fields are exact (property theorems)
+
+The linear-solver theorems are about the very definitions the driver executes
+(`Model/LinAlg.lean`: `solveAugmented`, `solveRight`, `solveLeft`, mirroring
+`pkg/base/mat/solver.go`), for an arbitrary field `F`.  `Lemmas/FpField.lean` shows that the
+executable `Fp p` is such a field.  Matrices are lists of rows; `dot`, `mulVec`, `vecMul`,
+`transposeN` are the model's own operations.
 -/
 namespace BronVerif.Props.C20
-open BigOperators
+open BigOperators BronVerif.LinAlg
 
 /-- computations "in the exponent" commute with lifting: `Σ cᵢ • (yᵢ • g) = (Σ cᵢ yᵢ) • g` -/
 theorem exponent_commutes {ι F G : Type*} [Field F] [AddCommGroup G] [Module F G]
     (s : Finset ι) (c y : ι → F) (g : G) :
     ∑ i ∈ s, c i • (y i • g) = (∑ i ∈ s, c i * y i) • g := by
   simp [Finset.sum_smul, mul_smul]
+
+variable {F : Type} [Field F] [DecidableEq F]
+
+/-- **Soundness of the mirrored Gauss–Jordan solver**: if `solveAugmented` returns `x` for the
+augmented matrix `aug = [A | b]` (every row has `numVars + 1` entries) then `x` has `numVars`
+entries and satisfies every row, i.e. `A x = b`. -/
+theorem solveAugmented_sound (aug : Mat F) (numVars : ℕ)
+    (hW : ∀ row ∈ aug, row.length = numVars + 1) (x : List F)
+    (h : solveAugmented aug numVars = some x) :
+    x.length = numVars ∧ ∀ row ∈ aug, dot (row.take numVars) x = row.getD numVars 0 := by
+  obtain ⟨hx, hev⟩ := solveAugmented_some_ev aug numVars hW x h
+  exact ⟨hx, (solves_iff_ev aug numVars x hx).mpr hev⟩
+
+/-- **Completeness**: `solveAugmented` answers "inconsistent" only if the system `A x = b` has no
+solution at all. -/
+theorem solveAugmented_complete (aug : Mat F) (numVars : ℕ)
+    (hW : ∀ row ∈ aug, row.length = numVars + 1) (h : solveAugmented aug numVars = none) :
+    ¬ ∃ x : List F, x.length = numVars ∧
+      ∀ row ∈ aug, dot (row.take numVars) x = row.getD numVars 0 := by
+  rintro ⟨x, hx, hsol⟩
+  exact solveAugmented_none_ev aug numVars hW h x ((solves_iff_ev aug numVars x hx).mp hsol)
+
+/-- `SolveRight` is sound: a returned `x` satisfies `M x = b`. -/
+theorem solveRight_sound (m : Mat F) (n : ℕ) (b : List F) (hm : ∀ row ∈ m, row.length = n)
+    (hb : b.length = m.length) (x : List F) (h : solveRight m n b = some x) :
+    x.length = n ∧ mulVec m x = b := by
+  obtain ⟨hx, hs⟩ := solveAugmented_sound _ n (augmented_width m n b hm) x h
+  exact ⟨hx, (augmented_solves_iff m n b x hm hb).mp hs⟩
+
+/-- `SolveRight` is complete: it fails only if `M x = b` is unsolvable. -/
+theorem solveRight_complete (m : Mat F) (n : ℕ) (b : List F) (hm : ∀ row ∈ m, row.length = n)
+    (hb : b.length = m.length) (h : solveRight m n b = none) :
+    ¬ ∃ x : List F, x.length = n ∧ mulVec m x = b := by
+  rintro ⟨x, hx, hs⟩
+  exact solveAugmented_complete _ n (augmented_width m n b hm) h
+    ⟨x, hx, (augmented_solves_iff m n b x hm hb).mpr hs⟩
+
+/-- `SolveLeft` is sound: a returned `x` has one entry per row of `M` and `x · M = r`, written with
+the explicit `n`-column transpose (`(x·M)_j = Σ_i x_i M_ij`). -/
+theorem solveLeft_sound (m : Mat F) (n : ℕ) (r : List F) (hr : r.length = n) (x : List F)
+    (h : solveLeft m n r = some x) :
+    x.length = m.length ∧ mulVec (transposeN m n) x = r :=
+  solveRight_sound (transposeN m n) m.length r (transposeN_width m n)
+    (by simp [transposeN, hr]) x h
+
+/-- `SolveLeft` is complete: it fails only if no `x` with `x · M = r` exists. -/
+theorem solveLeft_complete (m : Mat F) (n : ℕ) (r : List F) (hr : r.length = n)
+    (h : solveLeft m n r = none) :
+    ¬ ∃ x : List F, x.length = m.length ∧ mulVec (transposeN m n) x = r :=
+  solveRight_complete (transposeN m n) m.length r (transposeN_width m n)
+    (by simp [transposeN, hr]) h
+
+/-- the same in terms of the model's `vecMul` (which takes the column count from the first row) -/
+theorem solveLeft_sound_vecMul (m : Mat F) (n : ℕ) (r : List F) (hn : numCols m = n)
+    (hr : r.length = n) (x : List F) (h : solveLeft m n r = some x) :
+    x.length = m.length ∧ vecMul x m = r := by
+  subst hn; exact solveLeft_sound m _ r hr x h
+
+theorem solveLeft_complete_vecMul (m : Mat F) (n : ℕ) (r : List F) (hn : numCols m = n)
+    (hr : r.length = n) (h : solveLeft m n r = none) :
+    ¬ ∃ x : List F, x.length = m.length ∧ vecMul x m = r := by
+  subst hn; exact solveLeft_complete m _ r hr h
+
+/-! ### the same in Mathlib's `Matrix` vocabulary (shape of DESIGN Appendix A) -/
+
+/-- `SolveRight` returned `x`  ⟹  `M *ᵥ x = b` -/
+theorem solveRight_sound_matrix (m : Mat F) (n : ℕ) (b : List F)
+    (hm : ∀ row ∈ m, row.length = n) (hb : b.length = m.length) (x : List F)
+    (h : solveRight m n b = some x) :
+    (toMat m.length n m).mulVec (toVec n x) = toVec m.length b := by
+  obtain ⟨hx, hs⟩ := solveRight_sound m n b hm hb x h
+  exact (mulVec_eq_iff m n x b hx hb).mp hs
+
+/-- `SolveRight` failed  ⟹  no vector `v` at all satisfies `M *ᵥ v = b` -/
+theorem solveRight_complete_matrix (m : Mat F) (n : ℕ) (b : List F)
+    (hm : ∀ row ∈ m, row.length = n) (hb : b.length = m.length)
+    (h : solveRight m n b = none) :
+    ¬ ∃ v : Fin n → F, (toMat m.length n m).mulVec v = toVec m.length b := by
+  rintro ⟨v, hv⟩
+  refine solveRight_complete m n b hm hb h ⟨List.ofFn v, by simp, ?_⟩
+  rw [mulVec_eq_iff m n _ b (by simp) hb, toVec_ofFn]
+  exact hv
+
+/-- `SolveLeft` returned `x`  ⟹  `x ᵥ* M = r` -/
+theorem solveLeft_sound_matrix (m : Mat F) (n : ℕ) (r : List F) (hr : r.length = n) (x : List F)
+    (h : solveLeft m n r = some x) :
+    Matrix.vecMul (toVec m.length x) (toMat m.length n m) = toVec n r := by
+  have h1 := solveRight_sound_matrix (transposeN m n) m.length r (transposeN_width m n)
+    (by simp [transposeN, hr]) x h
+  have hl : (transposeN m n).length = n := by simp [transposeN]
+  rw [hl, toMat_transposeN, Matrix.mulVec_transpose] at h1
+  exact h1
+
+/-- `SolveLeft` failed  ⟹  no `v` with `v ᵥ* M = r` exists (so the target is outside the row span) -/
+theorem solveLeft_complete_matrix (m : Mat F) (n : ℕ) (r : List F) (hr : r.length = n)
+    (h : solveLeft m n r = none) :
+    ¬ ∃ v : Fin m.length → F, Matrix.vecMul v (toMat m.length n m) = toVec n r := by
+  have h1 := solveRight_complete_matrix (transposeN m n) m.length r (transposeN_width m n)
+    (by simp [transposeN, hr]) h
+  have hl : (transposeN m n).length = n := by simp [transposeN]
+  rw [hl] at h1
+  rintro ⟨v, hv⟩
+  exact h1 ⟨v, by rw [toMat_transposeN, Matrix.mulVec_transpose]; exact hv⟩
+
+/-- **Determinant**: the model's `det` (mirror of `SquareMatrix.Determinant`: forward elimination
+with first-non-zero pivot search, sign flip on row swap, product of the pivots, `0` as soon as a
+column has no pivot) equals Mathlib's `Matrix.det` of the same square matrix. -/
+theorem det_eq (m : Mat F) (hW : ∀ row ∈ m, row.length = m.length) :
+    det m = Matrix.det (toMatrix m.length m) :=
+  det_eq_matrix_det m hW
+
+/-- **`TryInv` is sound**: a returned matrix `b` is `n × n` and is the two-sided inverse of `m`
+(stated for the corresponding Mathlib matrices). -/
+theorem inverse_sound (m : Mat F) (hW : ∀ row ∈ m, row.length = m.length) (b : Mat F)
+    (h : inverse m = some b) :
+    (b.length = m.length ∧ ∀ row ∈ b, row.length = m.length) ∧
+      toMatrix m.length b * toMatrix m.length m = 1 ∧
+      toMatrix m.length m * toMatrix m.length b = 1 :=
+  inverse_some m hW b h
+
+/-- **`TryInv` is complete**: it reports "singular" exactly when `Matrix.det` vanishes. -/
+theorem inverse_eq_none_iff_det (m : Mat F) (hW : ∀ row ∈ m, row.length = m.length) :
+    inverse m = none ↔ Matrix.det (toMatrix m.length m) = 0 :=
+  inverse_eq_none_iff m hW
+
+/-- the two Go code paths agree: `Determinant ≠ 0` iff `TryInv` succeeds -/
+theorem det_ne_zero_iff_inverse (m : Mat F) (hW : ∀ row ∈ m, row.length = m.length) :
+    det m ≠ 0 ↔ inverse m ≠ none := by
+  rw [det_eq m hW, Ne, Ne, inverse_eq_none_iff_det m hW]
+
+/-! ### non-vacuity: concrete systems over `ZMod 7` -/
+
+local instance : Fact (Nat.Prime 7) := ⟨by norm_num⟩
+
+/-- `x + 2y = 3, 3x + y = 2` has the unique solution `(3, 0)`… evaluated by the model -/
+example : solveAugmented (F := ZMod 7) [[1, 2, 3], [3, 1, 2]] 2 = some [3, 0] := by decide +kernel
+/-- an inconsistent system: `x + 2y = 3, 2x + 4y = 0` -/
+example : solveAugmented (F := ZMod 7) [[1, 2, 3], [2, 4, 0]] 2 = none := by decide +kernel
+/-- a rank-deficient consistent system with a free variable (set to zero) -/
+example : solveAugmented (F := ZMod 7) [[0, 2, 4], [0, 1, 2]] 2 = some [0, 2] := by decide +kernel
+example : ∀ row ∈ ([[1, 2, 3], [3, 1, 2]] : Mat (ZMod 7)), row.length = 2 + 1 := by decide
+example : solveRight (F := ZMod 7) [[1, 2], [3, 1]] 2 [3, 2] = some [3, 0] := by decide +kernel
+example : solveRight (F := ZMod 7) [[1, 2], [2, 4]] 2 [3, 0] = none := by decide +kernel
+example : solveLeft (F := ZMod 7) [[1, 3], [2, 1]] 2 [3, 2] = some [3, 0] := by decide +kernel
+example : solveLeft (F := ZMod 7) [[1, 2], [2, 4]] 2 [3, 0] = none := by decide +kernel
+example : numCols ([[1, 3], [2, 1]] : Mat (ZMod 7)) = 2 := by decide
+/-- a determinant that needs a row swap (`-2·3 = 1 mod 7`), and a singular matrix -/
+example : det ([[0, 2], [3, 4]] : Mat (ZMod 7)) = 1 := by decide +kernel
+example : det ([[1, 2], [2, 4]] : Mat (ZMod 7)) = 0 := by decide +kernel
+example : toMatrix 2 ([[0, 2], [3, 4]] : Mat (ZMod 7)) = !![0, 2; 3, 4] := by decide +kernel
+example : inverse ([[0, 2], [3, 4]] : Mat (ZMod 7)) = some [[4, 5], [4, 0]] := by decide +kernel
+example : inverse ([[1, 2], [2, 4]] : Mat (ZMod 7)) = none := by decide +kernel
+example : ∀ row ∈ ([[0, 2], [3, 4]] : Mat (ZMod 7)), row.length = 2 := by decide
+
+/-! ### the executable field `Fp p`
+
+`Lemmas/FpField.lean` builds `Field (Fp p)` from the executable operations, so the theorems above
+apply verbatim to the model as the driver instantiates it (instances `Fp.instMul`, `Fp.instSub`,
+`Fp.instInvOfNeZeroNat` = Fermat inverse, …). -/
+section Fp
+open BronVerif.Fp
+variable {p : ℕ} [Fact p.Prime]
+
+/-- the field structure on `Fp p` computes with the executable operations: the solver taken at
+the `Field`-derived notation *is* the solver the driver runs (definitional equality) -/
+theorem det_inverse_Fp_instances :
+    (@det (Fp p) Fp.instMul Fp.instSub Fp.instNegOfNeZeroNat Fp.instInvOfNeZeroNat
+        Fp.instOfNatOfNeZeroNat Fp.instOfNatOfNeZeroNat Fp.instDecidableEq =
+      @det (Fp p) instField.toMul instField.toSub instField.toNeg instField.toInv Zero.toOfNat0
+        One.toOfNat1 Fp.instDecidableEq) ∧
+    (@inverse (Fp p) Fp.instMul Fp.instSub Fp.instInvOfNeZeroNat Fp.instOfNatOfNeZeroNat
+        Fp.instOfNatOfNeZeroNat Fp.instDecidableEq =
+      @inverse (Fp p) instField.toMul instField.toSub instField.toInv Zero.toOfNat0 One.toOfNat1
+        Fp.instDecidableEq) := ⟨rfl, rfl⟩
+
+theorem solveAugmented_Fp_instances :
+    @solveAugmented (Fp p) Fp.instMul Fp.instSub Fp.instInvOfNeZeroNat Fp.instOfNatOfNeZeroNat
+      Fp.instDecidableEq =
+    @solveAugmented (Fp p) instField.toMul instField.toSub instField.toInv Zero.toOfNat0
+      Fp.instDecidableEq := rfl
+
+/-- soundness of `SolveRight` over the executable prime field, stated with the driver's
+instances (`x.length = n ∧ M x = b`) -/
+theorem solveRight_sound_Fp (m : Mat (Fp p)) (n : ℕ) (b : List (Fp p))
+    (hm : ∀ row ∈ m, row.length = n) (hb : b.length = m.length) (x : List (Fp p))
+    (h : @solveRight (Fp p) Fp.instMul Fp.instSub Fp.instInvOfNeZeroNat Fp.instOfNatOfNeZeroNat
+      Fp.instDecidableEq m n b = some x) :
+    x.length = n ∧
+      @mulVec (Fp p) Fp.instAdd Fp.instMul Fp.instOfNatOfNeZeroNat m x = b :=
+  solveRight_sound m n b hm hb x h
+
+/-- completeness of `SolveRight` over the executable prime field -/
+theorem solveRight_complete_Fp (m : Mat (Fp p)) (n : ℕ) (b : List (Fp p))
+    (hm : ∀ row ∈ m, row.length = n) (hb : b.length = m.length)
+    (h : @solveRight (Fp p) Fp.instMul Fp.instSub Fp.instInvOfNeZeroNat Fp.instOfNatOfNeZeroNat
+      Fp.instDecidableEq m n b = none) :
+    ¬ ∃ x : List (Fp p), x.length = n ∧
+      @mulVec (Fp p) Fp.instAdd Fp.instMul Fp.instOfNatOfNeZeroNat m x = b :=
+  solveRight_complete m n b hm hb h
+
+example : solveRight (F := Fp 7) [[1, 2], [3, 1]] 2 [3, 2] = some [3, 0] := by decide +kernel
+example : solveRight (F := Fp 7) [[1, 2], [2, 4]] 2 [3, 0] = none := by decide +kernel
+example : (3 : Fp 7)⁻¹ = 5 := by decide +kernel
+example : det ([[0, 2], [3, 4]] : Mat (Fp 7)) = 1 := by decide +kernel
+end Fp
 
 end BronVerif.Props.C20
